@@ -8,7 +8,7 @@ from ..world import make  # noqa: F401
 
 LEVEL = 'model_checking'
 RULE = ('a raising handler placed first / middle / last among three handlers; async raise, raise after a pause, sync raise, returned exception object (sync and async); exception '
-        'types ValueError, a custom exception with state, RuntimeError, KeyError, a chained exception (raise ... from ...) and TimeoutError raised by the handler itself; placed in the root event, an awaited child, a '
+        'types ValueError, a custom exception with state, RuntimeError, KeyError, a chained exception (raise ... from ...), an exception object that is falsy (__len__ == 0) and TimeoutError raised by the handler itself; placed in the root event, an awaited child, a '
         'fire-and-forget child or a handler on a forwarded-to bus; also on an event class with a declared result type; serial and parallel_handlers; another event in flight; afterwards main awaits the event and calls '
         'event_result(raise_if_any=True/False). all schedules <= L deviations. non-trivial = a handler raised/returned an exception while another handler or event was pending; '
         'distinct = distinct recorder traces')
@@ -27,7 +27,7 @@ def families(tier):
     deep = tier == 'thorough'
     out = []
     cfg = dict(bound=4 if deep else 2, cap=30000 if deep else 1200, window=0.25, max_targets=2)
-    types = ['ValueError', 'Custom', 'RuntimeError', 'KeyError', 'TimeoutError', 'Chained', 'CancelledError']
+    types = ['ValueError', 'Custom', 'RuntimeError', 'KeyError', 'TimeoutError', 'Chained', 'CancelledError', 'Falsy']
     for pos, kind, typ, place, par in itertools.product((0, 1, 2), KINDS, types, ['root', 'child_aw', 'child_ff', 'fwd_bus'], (False, True)):
         if not deep:
             if typ in ('RuntimeError', 'KeyError') and (kind != 'raise' or place != 'root'):
@@ -37,6 +37,8 @@ def families(tier):
             if typ == 'Custom' and kind.startswith('sync') and place != 'root':
                 continue
         if typ == 'CancelledError' and 'ret_exc' in kind:
+            continue
+        if not deep and typ == 'Falsy' and (place not in ('root', 'child_aw') or pos == 1):
             continue
         hk, mk = KINDS[kind]
         trio = []
